@@ -338,7 +338,7 @@ type cexpr =
 | CLam of nat * cexpr
 | COp of char list * cexpr list
 
-val all_some : 'a1 option list -> 'a1 list option
+val map_opt : ('a1 -> 'a2 option) -> 'a1 list -> 'a2 list option
 
 val resolve0 : nat -> frames -> nat -> expr -> cexpr option
 
